@@ -142,6 +142,16 @@ def explore(chk):
                 if [w for w, r_ in zip(ewords, rel) if r_] != [w for w, r_ in zip(gwords, rel) if r_]:
                     ok = False; why = "blank cells between the characters of a row are not kept (word boundaries differ from the CEA-608 screen)"
                     detail = {"impl_words": str(gwords)[:600], "spec_words": str(ewords)[:600]}
+            if ok:
+                # the row groups of one transmitted caption are shown and removed together: same start, same end
+                k_ = 0
+                for groups in S:
+                    times = {(I[1][k_ + j][0], I[1][k_ + j][1]) for j in range(len(groups))}
+                    if len(times) > 1:
+                        ok = False; why = "the separate captions made from the non-adjacent rows of one transmitted caption do not share their start and end"
+                        detail = {"times": [[float(a_), float(b_)] for (a_, b_) in sorted(times)]}
+                        break
+                    k_ += len(groups)
             if ok and any(not sccgen.balanced(c[4]) for c in I[1]):
                 ok = False; why = "italic style nodes are not balanced"
             if not ok:
